@@ -8,7 +8,7 @@ From Coq Require Import ZifyN ZifyNat ZifyBool.
 From Coq.Strings Require Import Byte.
 From Verif.Base Require Import Bytes Outcome.
 From Verif.Model Require Import IE Codec Record SetB Msg Exporter ExpObj Rfc7011.
-From Verif.Proofs Require Import Bytes_lemmas Codec_lemmas SetB_lemmas Exporter_lemmas C08_lemmas Rfc_lemmas.
+From Verif.Proofs Require Import Bytes_lemmas Codec_lemmas SetB_lemmas Exporter_lemmas C08_lemmas C09_lemmas Rfc_lemmas.
 Import ListNotations.
 Local Open Scope N_scope.
 Local Notation length := List.length.
@@ -33,6 +33,52 @@ Proof. destruct r; reflexivity. Qed.
 Lemma rec_set_val_tshape j v r : tshape r -> tshape (rec_set_val j v r).
 Proof. destruct r; cbn [rec_set_val tshape]; [|auto]. intros ->. now rewrite tpl_buf_set_val. Qed.
 
+(* what every record of a set object satisfies, whatever happened to its element objects: a
+   template record has the builder's buffer for its elements; the field count is the number of
+   elements (uint16); the template id is a uint16 *)
+Definition rshape (r : rec) : Prop := tshape r /\ fc_ok r /\ rec_tid r < 65536.
+
+Lemma u16_lt' x : u16 x < 65536.
+Proof. unfold u16. apply N.mod_lt. discriminate. Qed.
+Lemma build_record_tid' t f els id r : build_record t f els id = Ok r -> rec_tid r < 65536.
+Proof.
+  destruct t; cbn [build_record].
+  - destruct f; unfold tpl_record_v1, tpl_record_v2.
+    + destruct (prepare_record _ _ _); cbn [obind]; try discriminate.
+      destruct (tpl_add_v1 _ _ _) as [[b m]| | |]; cbn [obind]; try discriminate. intros [= <-]. apply u16_lt'.
+    + destruct (prepare_record _ _ _); cbn [obind]; try discriminate.
+      destruct (tpl_add_v1 _ _ _) as [[b m]| | |]; cbn [obind]; try discriminate. intros [= <-]. apply u16_lt'.
+    + destruct (tpl_add_v2 _ _ _) as [b m]. destruct (prepare_record _ _ _); cbn [obind]; try discriminate.
+      intros [= <-]. apply u16_lt'.
+  - destruct f; unfold data_record_v1, data_record_v2.
+    + cbn. intros [= <-]. apply u16_lt'.
+    + destruct (k <? 0)%Z; [discriminate|]. intros [= <-]. apply u16_lt'.
+    + intros [= <-]. apply u16_lt'.
+  - destruct f; discriminate.
+Qed.
+Lemma build_record_rshape t f els id r : build_record t f els id = Ok r -> rshape r.
+Proof.
+  intros H. split; [eapply build_record_tshape; eassumption|].
+  split; [eapply build_record_fc; eassumption|eapply build_record_tid'; eassumption].
+Qed.
+Lemma rshape_step s o : Forall rshape (s_rrecs s) -> Forall rshape (s_rrecs (fst (step s o))).
+Proof.
+  intros H. destruct o as [t id|f els id| |]; cbn [step].
+  - destruct t; cbn [fst create_header]; try exact H;
+      match goal with |- context [put_at ?b ?i ?x] => destruct (put_at b i x) end; exact H.
+  - destruct (build_record _ _ _ _) eqn:E; cbn [fst]; try exact H.
+    cbn [s_rrecs]. constructor; [eapply build_record_rshape; eassumption|exact H].
+  - destruct (put_at _ _ _); exact H.
+  - constructor.
+Qed.
+Lemma rec_set_val_rshape j v r : rshape r -> rshape (rec_set_val j v r).
+Proof.
+  intros (A & B & C). split; [now apply rec_set_val_tshape|]. split.
+  - unfold fc_ok in *. destruct r; cbn [rec_set_val rec_fc rec_els] in *; unfold nels in *;
+      now rewrite set_nth_val_length.
+  - destruct r; exact C.
+Qed.
+
 Lemma mut_recs_sum tag j v : forall rs ms, sum_rec_len (mut_recs tag j v rs ms) = sum_rec_len rs.
 Proof.
   induction rs as [|r rs IH]; intros ms; [destruct ms as [|[[t|] c] ms]; reflexivity|].
@@ -40,16 +86,16 @@ Proof.
     unfold sum_rec_len in *; cbn [fold_right]; rewrite IH; try reflexivity.
   destruct (_ && _); [now rewrite rec_set_val_len|reflexivity].
 Qed.
-Lemma mut_recs_tshape tag j v : forall rs ms, Forall tshape rs -> Forall tshape (mut_recs tag j v rs ms).
+Lemma mut_recs_tshape tag j v : forall rs ms, Forall rshape rs -> Forall rshape (mut_recs tag j v rs ms).
 Proof.
   induction rs as [|r rs IH]; intros ms F; [destruct ms as [|[[t|] c] ms]; exact F|].
   inversion F as [|? ? T F']; subst.
   destruct ms as [|[[t|] c] ms]; cbn [mut_recs]; try exact F; constructor; auto.
-  destruct (_ && _); [now apply rec_set_val_tshape|exact T].
+  destruct (_ && _); [now apply rec_set_val_rshape|exact T].
 Qed.
 
 (* ---- the invariant of a set object ---- *)
-Definition OInv (o : oset) : Prop := InvM (o_set o) /\ Forall tshape (s_rrecs (o_set o)).
+Definition OInv (o : oset) : Prop := InvM (o_set o) /\ Forall rshape (s_rrecs (o_set o)).
 
 Lemma OInv_new : OInv new_oset.
 Proof. split; [apply Inv_InvM, Inv_new|constructor]. Qed.
@@ -59,7 +105,7 @@ Lemma OInv_obj_step o p tag : OInv o -> OInv (obj_step o p tag).
 Proof.
   intros [A B].
   assert (OInv (mkO (fst (step (o_set o) p)) (o_meta o))) as [A' B'].
-  { split; cbn [o_set]; [now apply InvM_step|now apply tshape_step]. }
+  { split; cbn [o_set]; [now apply InvM_step|now apply rshape_step]. }
   unfold obj_step. destruct p; try (split; assumption).
   destruct (snd _); split; assumption.
 Qed.
@@ -110,12 +156,12 @@ Proof.
   split; [exact A|]. now rewrite B, apply_gop_exp.
 Qed.
 
-Lemma set_after_send_inv fx st s : InvM s -> Forall tshape (s_rrecs s) ->
-  InvM (set_after_send fx st s) /\ Forall tshape (s_rrecs (set_after_send fx st s)).
+Lemma set_after_send_inv fx st s : InvM s -> Forall rshape (s_rrecs s) ->
+  InvM (set_after_send fx st s) /\ Forall rshape (s_rrecs (set_after_send fx st s)).
 Proof.
   intros A B.
-  assert (U : InvM (fst (step s OUpdLen)) /\ Forall tshape (s_rrecs (fst (step s OUpdLen)))).
-  { split; [now apply InvM_step|now apply tshape_step]. }
+  assert (U : InvM (fst (step s OUpdLen)) /\ Forall rshape (s_rrecs (fst (step s OUpdLen)))).
+  { split; [now apply InvM_step|now apply rshape_step]. }
   unfold set_after_send. destruct (s_type s); auto.
   - destruct (fx_register fx); auto. destruct (snd _); auto.
   - destruct (check_set _ _ _); auto.
@@ -158,7 +204,7 @@ Definition WInv (w : world) : Prop := Forall OInv (w_objs w) /\ st_wf (w_exp w).
 Definition out_ok (fx : fixes) (o : gout) : Prop :=
   match o with
   | OSent st s t x =>
-      InvM s /\ (forall r, In r (s_recs s) -> tshape r) /\ st_wf st /\ x = send_set fx st s t
+      InvM s /\ (forall r, In r (s_recs s) -> rshape r) /\ st_wf st /\ x = send_set fx st s t
   | ORefresh st t r => st_wf st /\ r = (if x_udp st then refresh fx st t else Ok [])
   | OReconn st q => st_wf st
   end.
